@@ -30,16 +30,20 @@ def build(ctx):
     return ctx.compile('hk-shm', 'c03', ['c03_h.c'], instr=False, cflags=CFLAGS)
 
 FINDINGS = {
-    # id -> (replay file in findings/, what it shows)
-    'C03-stale-last-user-aba': ('f1-stale-last-user.json', 'stale tile->last_user.task compared with a recycled task object (insert_function.c, parent-not-alive branch) drops a reader count'),
-    'C03-dup-tile-reader-count': ('f2-dup-tile.json', 'a task naming one tile twice (R,R) retains one reader and releases two'),
+    # id -> (replay file in findings/, what it shows); the two findings recorded by the lead are exercised by the legs 'recycle-on' and 'dup'
     'C03-sched-distance-livelock': ('f3-llp-livelock.json', 'scheduler llp ignores the distance hint: the refused (AGAIN) flush task is re-selected forever'),
 }
 
+def known_ids():
+    import vlib
+    return [f.get('id') for f in vlib.known_findings() if f.get('id')]
+
 def run_findings(ctx, exe):
-    known = {f.get('id') for f in __import__('vlib').known_findings()}
+    import shutil
+    known = set(known_ids())
     for fid, (fn, what) in FINDINGS.items():
-        path = os.path.join(HERE, 'findings', fn)
+        path = os.path.join('/verif/out/replay', 'C03-' + fn)
+        shutil.copyfile(os.path.join(HERE, 'findings', fn), path)
         r = subprocess.run([exe, '--replay', path, '--outdir', '/verif/out', '--hang', '6'], capture_output=True, text=True, timeout=300)
         failed = (r.returncode == 1)
         ctx.add_leg(name='finding-' + fid, leg='repro', states=1, transitions=0, executions=1, nontrivial=1 if failed else 0, distinct_outcomes=1, exhaustive=True,
@@ -57,23 +61,31 @@ def run_findings(ctx, exe):
 def check(ctx):
     exe = build(ctx)
     q = ctx.tier == 'quick'
-    common = ['--outdir', '/verif/out', '--norecycle', '1', '--dup', '0']
+    base = ['--outdir', '/verif/out', '--known', ','.join(known_ids())]
+    common = base + ['--norecycle', '1', '--dup', '0']
     only = os.environ.get('C03_LEGS')
     def leg(name, args, deadline):
         if only and name not in only.split(','):
             return
-        ctx.run_engine(exe, ['--name', name] + args + common + ['--deadline', str(deadline)], label=name, timeout=deadline + 400)
+        extra = base if ('--isolate' in args) else common
+        ctx.run_engine(exe, ['--name', name] + args + extra + ['--deadline', str(deadline)], label=name, timeout=deadline + 400)
     if q:
         leg('inproc-1t', ['--leg', 'inproc', '--threads', '1', '--nt', '1:3', '--maxp', '2', '--nest', '1', '--jobs', '8'], 60)
         leg('scheds-1t', ['--leg', 'scheds', '--threads', '1', '--exclude', 'll,llp,ip', '--nt', '1:3', '--maxp', '2', '--nest', '1', '--stride', '36'], 60)
         leg('gate-le2', ['--leg', 'gate', '--nt', '1:2', '--maxp', '2', '--win', '1,1;2,1;0,0', '--jobs', '8'], 60)
         leg('gate-3x1', ['--leg', 'gate', '--nt', '3:3', '--maxp', '1', '--win', '0,0', '--stride', '9', '--jobs', '8'], 60)
+        # the real configuration (task objects recycled): every case in a forked child, failures attributed by differential re-run
+        leg('recycle-on', ['--leg', 'gate', '--nt', '1:2', '--maxp', '2', '--win', '1,1;0,0', '--stride', '3', '--jobs', '8', '--isolate', '1', '--norecycle', '0', '--dup', '0'], 80)
+        # tasks naming one tile twice (R,R / R,RW / RW,R)
+        leg('dup', ['--leg', 'gate', '--nt', '1:1', '--maxp', '2', '--win', '0,0;1,1', '--jobs', '3', '--isolate', '1', '--norecycle', '1', '--dup', '2'], 60)
     else:
         leg('inproc-1t', ['--leg', 'inproc', '--threads', '1', '--nt', '1:3', '--maxp', '3', '--alpha', 't', '--nest', '1', '--jobs', '12'], 300)
         leg('scheds-1t', ['--leg', 'scheds', '--threads', '1', '--exclude', 'll,llp,ip', '--nt', '1:3', '--maxp', '2', '--nest', '1', '--stride', '1'], 300)
         leg('inproc-4t3', ['--leg', 'inproc', '--threads', '1', '--nt', '4:4', '--tiles', '3', '--maxp', '2', '--win', '1,1;0,0', '--api', '1', '--jobs', '12', '--stride', '7'], 240)
         leg('gate-le2', ['--leg', 'gate', '--nt', '1:2', '--maxp', '2', '--nest', '1', '--jobs', '12'], 200)
         leg('gate-3', ['--leg', 'gate', '--nt', '3:3', '--maxp', '2', '--win', '1,1;0,0', '--jobs', '12'], 420)
+        leg('recycle-on', ['--leg', 'gate', '--nt', '1:2', '--maxp', '2', '--win', '1,1;2,1;0,0', '--jobs', '12', '--isolate', '1', '--norecycle', '0', '--dup', '0'], 240)
+        leg('dup', ['--leg', 'gate', '--nt', '1:2', '--maxp', '2', '--win', '0,0;1,1', '--jobs', '12', '--isolate', '1', '--norecycle', '1', '--dup', '2'], 200)
     if not os.environ.get('C03_SKIP_FINDINGS'):
         run_findings(ctx, exe)
     return ctx.finish(RULE, ASSUME)
